@@ -73,12 +73,16 @@ impl SocketSend for ReqSocket {
 #[async_trait]
 impl SocketRecv for ReqSocket {
     async fn recv(&mut self) -> ZmqResult<ZmqMessage> {
-        match self.current_request.take() {
+        // The request stays outstanding until a reply (or an error) has actually
+        // been received: dropping this future while it waits must not forget it.
+        match self.current_request.clone() {
             Some(peer_id) => {
                 #[cfg(feature = "verif-hooks")]
                 crate::verif_hooks::yield_point("req.recv.after_take").await;
                 if let Some(mut peer) = self.backend.peers.get_async(&peer_id).await {
-                    match peer.recv_queue.next().await {
+                    let reply = peer.recv_queue.next().await;
+                    self.current_request = None;
+                    match reply {
                         Some(Ok(Message::Message(mut m))) => {
                             if m.len() < 2 {
                                 return Err(ZmqError::Other(
@@ -100,6 +104,7 @@ impl SocketRecv for ReqSocket {
                         None => Err(ZmqError::NoMessage),
                     }
                 } else {
+                    self.current_request = None;
                     Err(ZmqError::Other("Server disconnected"))
                 }
             }
